@@ -88,13 +88,87 @@ func TLBytes(p []byte) []byte {
 	return b
 }
 
-// Gzip wraps body bytes into gzip_packed (compress/gzip, default level).
-func Gzip(body []byte) []byte {
+// GzipVariants is the number of ways GzipStream can produce a stream.
+const GzipVariants = 8
+
+// GzipStream compresses body into a valid gzip stream (RFC 1952) the way compressor number v does it. Every variant
+// inflates to exactly body; they differ in what a reader gets from its FIRST reads: a compressor which flushes
+// (Z_SYNC_FLUSH: an empty stored block) makes the inflater hand out the bytes before the flush on their own, a stream
+// of several members hands out each member on its own.
+//
+//	0 one piece, default level          4 two members, split after k bytes
+//	1 flush after k bytes (k = 1..12)   5 stored blocks (no compression), one piece
+//	2 stored blocks, flush after 4      6 Huffman only, flush after 4, 8 and 12 bytes
+//	3 flush after every byte of the     7 best compression, flush after k bytes
+//	  first 16
+func GzipStream(body []byte, v, k int) []byte {
 	var buf bytes.Buffer
-	w := gzip.NewWriter(&buf)
-	_, _ = w.Write(body)
+	if k < 1 {
+		k = 1
+	}
+	if k > len(body) {
+		k = len(body)
+	}
+	level := gzip.DefaultCompression
+	switch v {
+	case 2, 5:
+		level = gzip.NoCompression
+	case 6:
+		level = gzip.HuffmanOnly
+	case 7:
+		level = gzip.BestCompression
+	}
+	w, _ := gzip.NewWriterLevel(&buf, level)
+	switch v {
+	case 1, 7:
+		_, _ = w.Write(body[:k])
+		_ = w.Flush()
+		_, _ = w.Write(body[k:])
+	case 2:
+		c := 4
+		if c > len(body) {
+			c = len(body)
+		}
+		_, _ = w.Write(body[:c])
+		_ = w.Flush()
+		_, _ = w.Write(body[c:])
+	case 3:
+		i := 0
+		for ; i < 16 && i < len(body); i++ {
+			_, _ = w.Write(body[i : i+1])
+			_ = w.Flush()
+		}
+		_, _ = w.Write(body[i:])
+	case 4:
+		_, _ = w.Write(body[:k])
+		_ = w.Close()
+		w, _ = gzip.NewWriterLevel(&buf, level)
+		_, _ = w.Write(body[k:])
+	case 6:
+		at := 0
+		for _, c := range []int{4, 8, 12} {
+			if c <= len(body) {
+				_, _ = w.Write(body[at:c])
+				_ = w.Flush()
+				at = c
+			}
+		}
+		_, _ = w.Write(body[at:])
+	default:
+		_, _ = w.Write(body)
+	}
 	_ = w.Close()
-	return append(le32(CrcGzipPacked), TLBytes(buf.Bytes())...)
+	return buf.Bytes()
+}
+
+// Gzip wraps body bytes into gzip_packed. The compressor is chosen by the content (FNV-1a of the body): any valid
+// stream has to do, so the reference server does not always write its streams in one piece (see GzipStream).
+func Gzip(body []byte) []byte {
+	h := uint32(2166136261)
+	for _, c := range body {
+		h = (h ^ uint32(c)) * 16777619
+	}
+	return append(le32(CrcGzipPacked), TLBytes(GzipStream(body, int(h%GzipVariants), 1+int((h>>8)%12)))...)
 }
 
 // RpcResult is rpc_result#f35c6d01 req_msg_id:long result:Object with the given result bytes.
